@@ -156,6 +156,12 @@ def graphs(run, rng, n):
                     elif rng.random() < 0.5:
                         kw["expected_groups"] = np.arange(5)
                         kw["fill_value"] = -1 if func != "all" else False
+                        if rng.random() < 0.3 and func not in ("all", "argmax", "nanargmin", "count"):
+                            # the dtype-appropriate NA sentinel object travels inside the tasks
+                            from flox import xrdtypes
+                            kw["fill_value"] = xrdtypes.NA
+                            kw["min_count"] = 1
+                            desc["fill"] = "xrdtypes.NA"
                     if method == "blockwise":
                         order = np.argsort(labels, kind="stable")
                         vals2, labels2 = np.asarray(arr)[order], labels[order]
